@@ -2,6 +2,7 @@
 import json, os, sys, time, traceback
 from vlib import *
 import engines
+import macroeng
 
 PROPS = {}
 def _load_props():
@@ -23,6 +24,12 @@ def plan(pid, tier, seed):
         runs.append(("boundary", lambda: engines.boundary(tier, seed)))
     if pid in ("C08", "C10"):
         runs.append(("boundary-wrapping", lambda: engines.boundary(tier, seed, features=("wrapping_version",))))
+    if pid in ("C05",):
+        runs.append(("match", lambda: macroeng.match_enum(tier, seed)))
+    if pid in ("C15", "C16"):
+        runs.append(("ids", lambda: macroeng.ids_enum(tier, seed)))
+    if pid in ("C16",):
+        runs.append(("cfgq", lambda: macroeng.cfgq_enum(tier, seed)))
     if pid in ("C11",):
         runs.append(("borrow", lambda: engines.borrow(tier, seed)))
     if pid in ("C17",):
@@ -58,6 +65,14 @@ def run_check(pid, tier, seed):
     if not results:
         raise ToolError("no engine registered for " + pid)
     mine, tool = [], []
+    kf = known_findings()
+    for r in results:
+        for v in r.get("known", [])[:1]:
+            match = [k for k in kf if k.get("property") == pid and k.get("id") == v.get("known")]
+            if match:
+                print("KNOWN-FINDING: property=%s %s (%d matching inputs in this run)" % (pid, match[0]["text"].split(" ", 3)[3], r.get("n_known", 1)))
+            else:
+                mine.append(v)
     for r in results:
         for v in r["violations"]:
             if "TOOL" in v["tags"]:
